@@ -655,7 +655,7 @@ static int cabd_find(struct mscab_decompressor_p *self, unsigned char *buf,
   struct mspack_system *sys = self->system;
   unsigned char *p, *pend, state = 0;
   unsigned int cablen_u32 = 0, foffset_u32 = 0;
-  int false_cabs = 0;
+  int false_cabs = 0, err;
 
 #if SIZEOF_OFF_T < 8
   /* detect 32-bit off_t overflow */
@@ -743,10 +743,13 @@ static int cabd_find(struct mscab_decompressor_p *self, unsigned char *buf,
             return MSPACK_ERR_NOMEMORY;
           }
           cab->base.filename = filename;
-          if (cabd_read_headers(sys, fh, cab, caboff, self->salvage, 1)) {
+          if ((err = cabd_read_headers(sys, fh, cab, caboff, self->salvage, 1))) {
             /* destroy the failed cabinet */
             cabd_close((struct mscab_decompressor *) self,
                        (struct mscabd_cabinet *) cab);
+            /* running out of memory says nothing about the data: do not
+             * mistake it for a false cabinet and search on */
+            if (err == MSPACK_ERR_NOMEMORY) return err;
             false_cabs++;
           }
           else {
